@@ -14,6 +14,7 @@ quiescence.  DESIGN.md section 5, C09; families in simkit/c09_families.py.
 from __future__ import annotations
 
 import hashlib
+import json
 
 from simkit import repo
 
@@ -90,8 +91,12 @@ EXPECTED_PROBES = [
     "probe.barrier_generations_ge_3", "probe.barrier_more_workers_than_parties",
     "probe.condition_wait_rounds_ge_2", "probe.notify_without_waiters", "probe.notify_woke_several",
     "probe.woken_waiters_contend_for_mutex", "probe.warmup_handed_connection_to_waiter",
+    # 2-3 independent instances of one primitive class in one simulation (shared-state detector)
+    "probe.multi.instances_active_together", "probe.multi.resource", "probe.multi.mutex", "probe.multi.semaphore",
+    "probe.multi.rwlock", "probe.multi.barrier", "probe.multi.condition", "probe.multi.pool", "probe.multi.bulkhead",
+    "probe.multi.threadpool", "probe.multi.concurrency", "probe.multi.preemptible",
 ]
-SHRINK_SKIP = ("family", "klass", "kind")
+SHRINK_SKIP = ("family", "klass", "kind")  # the shrinker may drop whole instances from "subs"
 SHRINK_BUDGET_S = {"quick": 20.0, "thorough": 60.0}
 
 CAP = 30_000
@@ -476,13 +481,39 @@ GENS = [
 _TOTAL_W = sum(w for _, w in GENS)
 
 
+MULTI_SHARE = 0.2
+
+
 def gen(rng, tier):
     x = rng.randrange(_TOTAL_W)
     for g, w in GENS:
         if x < w:
-            sc = g(rng)
             break
         x -= w
+    if rng.random() < MULTI_SHARE:
+        # 2-3 independent instances of the same primitive class in one Simulation, each judged by its own reference
+        # model: state accidentally shared between instances (class-level containers, module globals, mutable default
+        # arguments) shows up as a violation in one of them.  "twin": identical programs (same-numbered requests in
+        # flight together); otherwise independently generated programs.
+        k = rng.choice([2, 2, 3])
+        first = g(rng)
+        if rng.random() < 0.5:
+            subs = [first] + [json.loads(json.dumps(first)) for _ in range(k - 1)]
+            shift = rng.choice([0, 0, 1, 1 * MS])
+            for j, sub in enumerate(subs):
+                for w_ in sub.get("workers", []):
+                    w_["t"] += j * shift
+                for r_ in sub.get("requests", []):
+                    r_["t"] += j * shift
+                if sub.get("end_ns"):
+                    sub["end_ns"] += j * shift
+            mode = "twin"
+        else:
+            subs = [first] + [g(rng) for _ in range(k - 1)]
+            mode = "indep"
+        sc = {"family": "multi", "klass": f"multi-{mode}/{first['family']}", "subs": subs}
+    else:
+        sc = g(rng)
     sc["seed"] = rng.getrandbits(32)
     return sc
 
@@ -497,11 +528,10 @@ def run(sc):
         return _run(sc)
 
 
-def _run(sc):
+def _build_instance(sc, tag):
     fam_name = sc.get("family")
     if fam_name not in FAMILIES or "cfg" not in sc or not isinstance(sc.get("workers"), list):
         raise InvalidScenario("family/cfg/workers")
-    seed_globals(sc.get("seed", 0))
     fam = FAMILIES[fam_name](sc)
     try:
         ents = fam.build()
@@ -513,21 +543,59 @@ def _run(sc):
             raise InvalidScenario("no requests")
     elif not workers:
         raise InvalidScenario("no workers")
-    end_ns = sc.get("end_ns")
-    if fam_name == "pool" and not end_ns:
+    if fam_name == "pool" and not sc.get("end_ns"):
         raise InvalidScenario("pool needs end_ns")
-    sim = Simulation(entities=list(ents) + list(workers), end_time=Instant(int(end_ns)) if end_ns else None)
-    fam.sim = sim
+    if tag:
+        # several independent instances in one simulation: give every entity its own name, as a user would
+        for e in list(ents) + list(workers):
+            e.name = f"{e.name}{tag}"
+            for part in ("queue", "driver", "worker"):
+                sub = getattr(e, part, None)
+                if sub is not None and hasattr(sub, "name"):
+                    sub.name = f"{sub.name}{tag}"
+    return fam, ents, workers
+
+
+def _run(sc):
+    multi = sc.get("family") == "multi"
+    if multi:
+        subs = sc.get("subs")
+        if not isinstance(subs, list) or not (1 <= len(subs) <= 4) or len({x.get("family") for x in subs}) != 1:
+            raise InvalidScenario("subs")
+    else:
+        subs = [sc]
+    fam_name = subs[0].get("family")
+    seed_globals(sc.get("seed", 0))
+    fams, ents, workers = [], [], []
+    for k, sub in enumerate(subs):
+        f, e, w = _build_instance(sub, f"@{k}" if multi else "")
+        fams.append(f)
+        ents += list(e)
+        workers += list(w)
+    ends = [int(x["end_ns"]) for x in subs if x.get("end_ns")]
+    sim = Simulation(entities=ents + workers, end_time=Instant(max(ends)) if ends else None)
+    cls0 = fams[0].CLS
 
     def spin_sig(ev):
         cur = getattr(ev.target, "cur", None) or ev.event_type
-        return f"C09/passive-wait/{fam.CLS}/frozen-clock-spin-in-{cur}"
+        cls = getattr(getattr(ev.target, "fam", None), "CLS", cls0)
+        return f"C09/passive-wait/{cls}/frozen-clock-spin-in-{cur}"
 
-    mon = Monitor(sim, cap=CAP, spin_cap=SPIN_CAP, invariant=fam.after, spin_sig=spin_sig)
-    fam.mon = mon
-    sim.control.on_time_advance(lambda t: fam.eoi())
+    def after(ev, mon):
+        for f in fams:
+            f.after(ev, mon)
+
+    def eoi(_t=None):
+        for f in fams:
+            f.eoi()
+
+    mon = Monitor(sim, cap=CAP * len(fams), spin_cap=SPIN_CAP, invariant=after, spin_sig=spin_sig)
+    for f in fams:
+        f.sim = sim
+        f.mon = mon
+    sim.control.on_time_advance(eoi)
     try:
-        extra = fam.extra_events()
+        extra = [e for f in fams for e in f.extra_events()]
     except KeyError as e:
         raise InvalidScenario(f"missing {e}") from None
     for e in extra:
@@ -540,36 +608,45 @@ def _run(sc):
     if outcome in ("violation", "exception"):
         sig, msg = payload.sig, payload.msg
         if outcome == "exception":
-            sig = f"C09/{sig}/{fam.CLS}"
+            sig = f"C09/{sig}/{cls0}"
     elif outcome == "budget":
-        sig, msg = f"C09/terminates/{fam.CLS}/delivery-budget", f"run did not finish within {CAP} deliveries"
+        sig, msg = f"C09/terminates/{cls0}/delivery-budget", f"run did not finish within {CAP * len(fams)} deliveries"
     else:
         try:
-            fam.final()
+            for f in fams:
+                f.final()
         except Violation as v:
             sig, msg = v.sig, v.msg
         if sig is None:
-            stuck = [w.idx for w in workers if not w.done]
+            stuck = [w.name for w in workers if not w.done]
             if stuck and fam_name in ("mutex", "rwlock", "concurrency", "pool"):
-                sig, msg = (f"C09/served-eventually/{fam.CLS}/process-never-finished",
+                sig, msg = (f"C09/served-eventually/{cls0}/process-never-finished",
                             f"workers {stuck} never finished although every holder releases")
+    if multi and sig and msg is not None:
+        msg = f"[{len(fams)} independent {cls0} instances in one simulation] {msg}"
 
-    c = fam.counters
-    blocked = c.get("blocked", 0)
-    contention = blocked or any(c.get("probe." + p) for p in ("try_refused", "rejected", "timeout", "tripped", "preempted", "consumed"))
-    counters = {k: v for k, v in c.items()}
+    counters = {}
+    for f in fams:
+        for k, v in f.counters.items():
+            counters[k] = max(counters.get(k, 0), v) if k.startswith("probe.") else counters.get(k, 0) + v
+    blocked = counters.get("blocked", 0)
+    contention = blocked or any(counters.get("probe." + p) for p in ("try_refused", "rejected", "timeout", "tripped", "preempted", "consumed"))
     counters[f"family.{fam_name}"] = 1
-    if fam.max_blocked >= 4:
+    max_blocked = max(f.max_blocked for f in fams)
+    if max_blocked >= 4:
         counters[f"probe.{fam_name}.queue_depth_ge_4"] = 1
+    if multi:
+        counters[f"probe.multi.{fam_name}"] = 1
+        if sum(1 for f in fams if f.counters.get("blocked", 0) or f.nlog >= 4) >= 2:
+            counters["probe.multi.instances_active_together"] = 1
     if sig is None:
         counters["clean_runs"] = 1
-    counters["max_same_instant_deliveries"] = 0  # placeholder so the key exists
-    counters.pop("max_same_instant_deliveries")
-    h = hashlib.blake2b(f"{mon.digest}|{fam.loghash}".encode(), digest_size=12).hexdigest()
+    h = hashlib.blake2b(("|".join([mon.digest] + [f.loghash for f in fams])).encode(), digest_size=12).hexdigest()
+    states = sorted(set().union(*[f.states for f in fams]))
     return result(
         sig=sig, msg=msg or "", digest=h,
-        nontrivial=fam.nlog >= 4 and bool(contention),
+        nontrivial=sum(f.nlog for f in fams) >= 4 and bool(contention),
         counters=counters, sim_s=mon.last_time_ns / 1e9, deliveries=mon.seq,
-        klass=sc.get("klass", fam_name), state=sorted(fam.states),
-        extra={"max_same_t": mon.max_same_t, "max_blocked": fam.max_blocked},
+        klass=sc.get("klass", fam_name), state=states,
+        extra={"max_same_t": mon.max_same_t, "max_blocked": max_blocked},
     )
